@@ -1,5 +1,6 @@
 /-
-Translated Python functions, group Pn: tlexport/quic/quic_session.py `get_full_packet_number`.
+Translated Python functions, group Pn: tlexport/quic/quic_session.py `get_full_packet_number`, `set_largest_packet_number`
+and the tables they index.
 Each `<python name>_eq_model` says the definition regenerated from the tree under test
 (`TLX/Gen/Translated/Pn.lean`, written by `harness/translate.py`) EQUALS the hand-written model function.
 This module imports only its own group's generated file: a source change outside the group cannot break it.
@@ -12,16 +13,15 @@ namespace TLX.Props.Translated
 open TLX TLX.PyRt TLX.Lemmas.Translated TLX.Quic.PktNum
 
 /-- `get_full_packet_number`, the whole method (table read, shortcut, A.3 arithmetic on Python integers with `& ~ | <<`,
-    table update, `to_bytes(8)`): for a packet-number field of 1–4 bytes and table entries below 2^62 it never raises,
-    returns the field itself on the shortcut and else the 8-byte encoding of the model's `implDecode`, and leaves the
-    model's `implUpdate` in the entry of the packet's direction (the other entry untouched). -/
+    `to_bytes(8)`): for a packet-number field of 1–4 bytes and table entries below 2^62 it never raises, returns the field
+    itself on the first-packet shortcut and else the 8-byte encoding of the model's `implDecode`. It leaves both tables
+    UNCHANGED: the translation has no attribute write at all (its type is `Except Err Bytes`, there is no state record;
+    a write to either table would make the spec's read-only places `Untranslatable`). -/
 theorem get_full_packet_number_eq_model (srv : Bool) (pn : Bytes) (pnS pnC : Nat)
     (hn : 1 ≤ pn.length ∧ pn.length ≤ 4) (hS : pnS < 2 ^ 62) (hC : pnC < 2 ^ 62) :
     Gen.Py.get_full_packet_number srv pn (Int.ofNat pnS) (Int.ofNat pnC) =
       .ok (if Bytes.beNat pn > (if srv then pnS else pnC) ∧ (if srv then pnS else pnC) = 0 then pn
-           else Bytes.ofNatBE 8 (implDecode (2 ^ (8 * pn.length)) (2 ^ 62) (if srv then pnS else pnC) (Bytes.beNat pn)))
-        { pn_server := if srv then Int.ofNat (implUpdate pnS (implDecode (2 ^ (8 * pn.length)) (2 ^ 62) pnS (Bytes.beNat pn))) else Int.ofNat pnS,
-          pn_client := if srv then Int.ofNat pnC else Int.ofNat (implUpdate pnC (implDecode (2 ^ (8 * pn.length)) (2 ^ 62) pnC (Bytes.beNat pn))) } := by
+           else Bytes.ofNatBE 8 (implDecode (2 ^ (8 * pn.length)) (2 ^ 62) (if srv then pnS else pnC) (Bytes.beNat pn))) := by
   have ht : Bytes.beNat pn < 2 ^ (8 * pn.length) := by
     have := beNat_lt pn
     rwa [show (256 : Nat) = 2 ^ 8 by rfl, ← Nat.pow_mul] at this
@@ -31,33 +31,104 @@ theorem get_full_packet_number_eq_model (srv : Bool) (pn : Bytes) (pnS pnC : Nat
   have hW : 2 ≤ 2 ^ (8 * pn.length) := by
     have : 2 ^ 1 ≤ 2 ^ (8 * pn.length) := Nat.pow_le_pow_right (by omega) (by omega)
     omega
+  have h8 : (8 : Int) = Int.ofNat 8 := rfl
+  -- both directions: `L` is the entry of the packet's direction
+  have key : ∀ L : Nat, L < 2 ^ 62 →
+      (if Int.ofNat (Bytes.beNat pn) > Int.ofNat L ∧ Int.ofNat L = 0 then (Except.ok pn : Except Err Bytes)
+        else tryE (toBytesE (Int.ofNat (rfcDecode (2 ^ (8 * pn.length)) (2 ^ 62) L (Bytes.beNat pn))) 8)
+          (fun py_e => .error py_e) (fun py_t_1 => .ok py_t_1)) =
+      .ok (if Bytes.beNat pn > L ∧ L = 0 then pn
+           else Bytes.ofNatBE 8 (implDecode (2 ^ (8 * pn.length)) (2 ^ 62) L (Bytes.beNat pn))) := by
+    intro L hL
+    have hR := implDecode_lt pn.length L (Bytes.beNat pn) hn hL ht
+    unfold implDecode at hR ⊢
+    by_cases hc : Bytes.beNat pn > L ∧ L = 0
+    · have hc' : Int.ofNat (Bytes.beNat pn) > Int.ofNat L ∧ Int.ofNat L = 0 := by
+        simp only [Int.ofNat_eq_natCast]; omega
+      rw [if_pos hc', if_pos hc]
+    · have hc' : ¬ (Int.ofNat (Bytes.beNat pn) > Int.ofNat L ∧ Int.ofNat L = 0) := by
+        simp only [Int.ofNat_eq_natCast]; omega
+      simp only [hc, if_false] at hR
+      simp only [hc, hc', if_false, h8, toBytesE_nat _ 8 hR, tryE_ok]
   cases srv
   · simp only [Gen.Py.get_full_packet_number, hw, hb, Bool.false_eq_true, if_false, mask_or' _ _ _ ht, Bool.and_eq_true,
       decide_eq_true_eq, Bool.not_eq_true', decide_eq_false_iff_not, Int.not_lt, Int.not_le, pn_arith _ _ _ _ hW ht]
-    have hR : rfcDecode (2 ^ (8 * pn.length)) (2 ^ 62) pnC (Bytes.beNat pn) < 256 ^ 8 := by
-      have h1 := rfcDecode_lt (2 ^ (8 * pn.length)) (2 ^ 62) pnC (Bytes.beNat pn) (by omega) ht
-      have h2 : 2 ^ (8 * pn.length) ≤ 2 ^ 32 := Nat.pow_le_pow_right (by omega) (by omega)
-      generalize 2 ^ (8 * pn.length) = W at *
-      generalize rfcDecode W (2 ^ 62) pnC (Bytes.beNat pn) = R at *
-      omega
-    have := pn_finish false pn pnS pnC _ hR (by simp only [implDecode]; rfl)
-    simpa [apply_ite Prod.fst, apply_ite Prod.snd] using this
+    exact key pnC hC
   · simp only [Gen.Py.get_full_packet_number, hw, hb, if_true, mask_or' _ _ _ ht, Bool.and_eq_true,
       decide_eq_true_eq, Bool.not_eq_true', decide_eq_false_iff_not, Int.not_lt, Int.not_le, pn_arith _ _ _ _ hW ht]
-    have hR : rfcDecode (2 ^ (8 * pn.length)) (2 ^ 62) pnS (Bytes.beNat pn) < 256 ^ 8 := by
-      have h1 := rfcDecode_lt (2 ^ (8 * pn.length)) (2 ^ 62) pnS (Bytes.beNat pn) (by omega) ht
-      have h2 : 2 ^ (8 * pn.length) ≤ 2 ^ 32 := Nat.pow_le_pow_right (by omega) (by omega)
-      generalize 2 ^ (8 * pn.length) = W at *
-      generalize rfcDecode W (2 ^ 62) pnS (Bytes.beNat pn) = R at *
-      omega
-    have := pn_finish true pn pnS pnC _ hR (by simp only [implDecode]; rfl)
-    simpa [apply_ite Prod.fst, apply_ite Prod.snd] using this
-
+    exact key pnS hS
 
 /-- RFC 9000 A.3's own example, through the translated code: largest 0xa82f30ea, field 0x9b32 -/
-example : Gen.Py.get_full_packet_number true [0x9b, 0x32] 0xa82f30ea 0 =
-    .ok [0, 0, 0, 0, 0xa8, 0x2f, 0x9b, 0x32] { pn_server := 0xa82f9b32, pn_client := 0 } := by decide +kernel
-example : Gen.Py.get_full_packet_number false [0x07] 5 0 = .ok [0x07] { pn_server := 5, pn_client := 7 } := by decide +kernel
+example : Gen.Py.get_full_packet_number true [0x9b, 0x32] 0xa82f30ea 0 = .ok [0, 0, 0, 0, 0xa8, 0x2f, 0x9b, 0x32] := by
+  decide +kernel
+example : Gen.Py.get_full_packet_number false [0x07] 5 0 = .ok [0x07] := by decide +kernel
+
+/-- `set_largest_packet_number` on any bytes: the entry of the packet's direction becomes the model's `implUpdate` of the
+    old entry and the number the bytes encode; the other direction's entry is untouched (and no other attribute is
+    written: the result record has these two fields only) -/
+theorem set_largest_packet_number_update (srv : Bool) (b : Bytes) (pnS pnC : Nat) :
+    Gen.Py.set_largest_packet_number b srv (Int.ofNat pnS) (Int.ofNat pnC) =
+      { pn_server := if srv then Int.ofNat (implUpdate pnS (Bytes.beNat b)) else Int.ofNat pnS,
+        pn_client := if srv then Int.ofNat pnC else Int.ofNat (implUpdate pnC (Bytes.beNat b)) } := by
+  unfold Gen.Py.set_largest_packet_number implUpdate
+  generalize Bytes.beNat b = t
+  -- (kept independent of how the comparison is spelled: every combination of the two tests is closed by arithmetic)
+  cases srv <;> simp only [Bool.false_eq_true, if_false, if_true, decide_eq_true_eq, Int.ofNat_eq_natCast]
+  all_goals
+    repeat' split
+    all_goals
+      try simp only [Gen.Py.set_largest_packet_number.St.mk.injEq, true_and, and_true]
+      try omega
+
+/-- `set_largest_packet_number` on the bytes `get_full_packet_number` returned for the same packet and tables (the raw
+    field of the shortcut or the 8-byte form): it leaves `implUpdate largest (implDecode …)` in the entry of the packet's
+    direction (the space is the table key both methods share, `PACKET_TYPE_MAP[quic_packet.packet_type]`, see
+    `packet_number_spaces_eq_model`) and nothing else changed. This is what `decrypt_packet` does after the AEAD check
+    succeeded; together the two calls are the model's `PktNum.step`. -/
+theorem set_largest_packet_number_eq_model (srv : Bool) (pn b : Bytes) (pnS pnC : Nat)
+    (hn : 1 ≤ pn.length ∧ pn.length ≤ 4) (hS : pnS < 2 ^ 62) (hC : pnC < 2 ^ 62)
+    (hb : Gen.Py.get_full_packet_number srv pn (Int.ofNat pnS) (Int.ofNat pnC) = .ok b) :
+    Gen.Py.set_largest_packet_number b srv (Int.ofNat pnS) (Int.ofNat pnC) =
+      { pn_server := if srv then Int.ofNat (implUpdate pnS (implDecode (2 ^ (8 * pn.length)) (2 ^ 62) pnS (Bytes.beNat pn)))
+                     else Int.ofNat pnS,
+        pn_client := if srv then Int.ofNat pnC
+                     else Int.ofNat (implUpdate pnC (implDecode (2 ^ (8 * pn.length)) (2 ^ 62) pnC (Bytes.beNat pn))) } := by
+  have ht : Bytes.beNat pn < 2 ^ (8 * pn.length) := by
+    have := beNat_lt pn
+    rwa [show (256 : Nat) = 2 ^ 8 by rfl, ← Nat.pow_mul] at this
+  rw [get_full_packet_number_eq_model srv pn pnS pnC hn hS hC] at hb
+  have hb := Except.ok.inj hb
+  -- the bytes encode the model's value, in either form
+  have hv : ∀ L : Nat, L < 2 ^ 62 →
+      Bytes.beNat (if Bytes.beNat pn > L ∧ L = 0 then pn
+        else Bytes.ofNatBE 8 (implDecode (2 ^ (8 * pn.length)) (2 ^ 62) L (Bytes.beNat pn))) =
+      implDecode (2 ^ (8 * pn.length)) (2 ^ 62) L (Bytes.beNat pn) := by
+    intro L hL
+    have hR := implDecode_lt pn.length L (Bytes.beNat pn) hn hL ht
+    by_cases hc : Bytes.beNat pn > L ∧ L = 0
+    · rw [if_pos hc, implDecode, if_pos hc]
+    · rw [if_neg hc, beNat_ofNatBE 8 _ hR]
+  rw [set_largest_packet_number_update, ← hb]
+  cases srv
+  · simp only [Bool.false_eq_true, if_false, hv pnC hC]
+  · simp only [if_true, hv pnS hS]
+
+/-- the two calls as `decrypt_packet` makes them are one `PktNum.step` on the entry of the packet's direction -/
+theorem decode_then_store_is_step (t : Table) (srv : Bool) (ty : PType) (pn b : Bytes)
+    (hn : 1 ≤ pn.length ∧ pn.length ≤ 4) (hS : t.get true ty.space < 2 ^ 62) (hC : t.get false ty.space < 2 ^ 62)
+    (hb : Gen.Py.get_full_packet_number srv pn (Int.ofNat (t.get true ty.space)) (Int.ofNat (t.get false ty.space)) = .ok b) :
+    let r := Gen.Py.set_largest_packet_number b srv (Int.ofNat (t.get true ty.space)) (Int.ofNat (t.get false ty.space))
+    (if srv then r.pn_server else r.pn_client) = Int.ofNat ((step t srv ty pn.length (Bytes.beNat pn)).2.get srv ty.space) ∧
+    (if srv then r.pn_client else r.pn_server) = Int.ofNat (t.get (!srv) ty.space) := by
+  intro r
+  have := set_largest_packet_number_eq_model srv pn b _ _ hn hS hC hb
+  simp only [r, this]
+  cases srv <;> simp [step, Table.set]
+
+example : Gen.Py.set_largest_packet_number [0, 0, 0, 0, 0xa8, 0x2f, 0x9b, 0x32] true 0xa82f30ea 0 =
+      { pn_server := 0xa82f9b32, pn_client := 0 } ∧
+    Gen.Py.set_largest_packet_number [0x07] false 5 9 = { pn_server := 5, pn_client := 9 } ∧
+    Gen.Py.set_largest_packet_number [0x07] false 5 0 = { pn_server := 5, pn_client := 7 } := by decide +kernel
 
 /-- The tables behind the two places of `get_full_packet_number` (`PACKET_TYPE_MAP`, and the two dicts
     `set_packet_number_spaces` creates): every packet type that carries a packet number has a key in `PACKET_TYPE_MAP`
